@@ -177,6 +177,19 @@ macro_rules! __dyn_collect {
                 $crate::collect::DynCollect::dyn_trace(self, cc);
             }
         }
+
+        // The impl above is only sound for a trait object, whose `DynCollect` impl comes from
+        // the supertrait. For a sized type it would be satisfied by the blanket `DynCollect`
+        // impl, which is built on this very `Collect` impl. The blanket impl below covers every
+        // sized type, so naming one in the macro is a coherence error.
+        const _: () = {
+            trait _MustBeUnsized {}
+            impl<_T> _MustBeUnsized for _T {}
+            impl<'gc, $($params),*> _MustBeUnsized for $trait
+            where
+                $($($bounds)+)*
+            {}
+        };
     };
     ($trait:ty) => {
         unsafe impl<'gc> $crate::Collect<'gc> for $trait {
@@ -184,6 +197,13 @@ macro_rules! __dyn_collect {
                 $crate::collect::DynCollect::dyn_trace(self, cc);
             }
         }
+
+        // See above: a sized type here is a coherence error.
+        const _: () = {
+            trait _MustBeUnsized {}
+            impl<_T> _MustBeUnsized for _T {}
+            impl<'gc> _MustBeUnsized for $trait {}
+        };
     }
 }
 
